@@ -54,6 +54,7 @@ let () =
   let cur = ref None in      (* (fid, flags) *)
   let vals = ref [] and instrs = ref [] in
   let impl_r = Hashtbl.create 8 in
+  let atab = Hashtbl.create 64 in     (* A tables: methods of the runtime types implementing an asserted interface *)
   let ty_of d = try Hashtbl.find tmap d with Not_found -> 900 + d in
   let fd_of d = try Hashtbl.find kmap d with Not_found -> 900 + d in
   (* parse "<nf> {<kid> <n> <vid>*}" from a token list, returns (operands, rest) *)
@@ -114,7 +115,7 @@ let () =
        | None -> ())
     done;
     print_string "Z\n";
-    funcs := []; Hashtbl.reset tmap; Hashtbl.reset kmap; Hashtbl.reset impl_r in
+    funcs := []; Hashtbl.reset tmap; Hashtbl.reset kmap; Hashtbl.reset impl_r; Hashtbl.reset atab in
   let dir = ref "" in
   (try
      while true do
@@ -141,6 +142,7 @@ let () =
              | _ :: tid :: inv :: rest ->
                let (ops, rest) = parse_ops rest in
                let (meths, rest) = (match rest with
+                   | "MA" :: aid :: rest -> ((try Hashtbl.find atab (int_of_string aid) with Not_found -> failwith "unknown A table"), rest)
                    | "M" :: n :: rest ->
                      let n = int_of_string n in
                      let rec take j rest acc = if j = 0 then (List.rev acc, rest) else
@@ -153,6 +155,13 @@ let () =
                    | _ -> []) in
                instrs := { i_ty = pos_of_int (ty_of (int_of_string tid)); i_invoke = (inv = "1"); i_ops = ops; i_meths = meths; i_names = names } :: !instrs
              | _ -> failwith "bad I line")
+         | 'A' -> (match split_ws l with
+             | _ :: aid :: _ :: rest ->
+               let rec pairs rest acc = match rest with
+                 | m :: f :: rest -> pairs rest ((pos_of_int (int_of_string m), pos_of_int (int_of_string f)) :: acc)
+                 | _ -> List.rev acc in
+               Hashtbl.replace atab (int_of_string aid) (pairs rest [])
+             | _ -> failwith "bad A line")
          | 'E' -> flush_fn ()
          | 'R' -> (match split_ws l with _ :: s :: _ :: ids -> Hashtbl.replace impl_r (int_of_string s) (ids_line ids) | _ -> ())
          | 'Z' -> flush_fn (); run_program !dir
